@@ -221,9 +221,24 @@ func modelCheck(c *core.Ctx, casesFile string, workers int) (*MCResult, error) {
 	return mc, nil
 }
 
-// devLimit truncates the universe to the first VERIF_H_LIMIT types
-// (development only; never set by the registered commands).
+// devLimit: development knobs, never set by the registered commands:
+// VERIF_H_LIMIT=n truncates the universe to its first n types.
 func devLimit(u *engs.Universe) {
+	// VERIF_H_TYPES=<file of {"t":<type>} lines>: run exactly these types (replaying a witness)
+	if f := os.Getenv("VERIF_H_TYPES"); f != "" {
+		if lines, err := readLines(f); err == nil {
+			u.Types, u.IDs, u.Exhaustive = nil, nil, false
+			for i, l := range lines {
+				var r struct {
+					T *engs.Type `json:"t"`
+				}
+				if json.Unmarshal(l, &r) == nil && r.T != nil {
+					u.Types = append(u.Types, r.T)
+					u.IDs = append(u.IDs, fmt.Sprintf("T%d", i+1))
+				}
+			}
+		}
+	}
 	if n, err := strconv.Atoi(os.Getenv("VERIF_H_LIMIT")); err == nil && n > 0 && n < len(u.Types) {
 		u.Types, u.IDs = u.Types[:n], u.IDs[:n]
 		u.Exhaustive = false
